@@ -253,7 +253,7 @@ class Collapser:
         return {'id': f.id, 'planes': [tuple(p) for p in f.planes], 'u': (f.uaxis.x, f.uaxis.y, f.uaxis.z, f.uaxis.offset, f.uaxis.scale),
                 'v': (f.vaxis.x, f.vaxis.y, f.vaxis.z, f.vaxis.offset, f.vaxis.scale), 'mat': f.mat,
                 'disp_pos': tuple(f.disp_pos) if f.is_disp else None, 'power': f.disp_power,
-                'verts': [(tuple(f[x, y].normal), tuple(f[x, y].offset), f[x, y].distance, f[x, y].alpha) for y in range(f.disp_size) for x in range(f.disp_size)] if f.is_disp else None,
+                'verts': [(tuple(f[x, y].normal), tuple(f[x, y].offset), f[x, y].distance, f[x, y].alpha, tuple(f[x, y].offset_norm)) for y in range(f.disp_size) for x in range(f.disp_size)] if f.is_disp else None,
                 'allowed': list(f.disp_allowed_vert) if f.is_disp else None}
 
     def snap_solid(self, s) -> list:
@@ -299,9 +299,10 @@ class Collapser:
                     self.fail(f'{label}: displacement allowed_verts not carried over', 'disp-data-lost')
                     return
                 size = f.disp_size
-                for i, (n0, off0, dist0, alpha0) in enumerate(fs['verts']):
+                for i, (n0, off0, dist0, alpha0, offn0) in enumerate(fs['verts']):
                     v = f[i % size, i // size]
-                    if not close(tuple(v.normal), vmul(n0, R), 1e-6) or not close(tuple(v.offset), vmul(off0, R), 1e-6) or v.distance != dist0 or v.alpha != alpha0:
+                    if not close(tuple(v.normal), vmul(n0, R), 1e-6) or not close(tuple(v.offset), vmul(off0, R), 1e-6) or v.distance != dist0 or v.alpha != alpha0 \
+                            or not close(tuple(v.offset_norm), vmul(offn0, R), 1e-6):
                         self.fail(f'{label}: displacement vertex {i} not rotated with the instance', 'disp-vertex')
                         return
                 self.run.count('displacements_checked')
@@ -463,6 +464,20 @@ class Collapser:
                         if '$' + var in new_val.casefold() and '$' + var not in sub.casefold():
                             self.fail(f'{label}: key {k}={new_val!r} still contains ${var}', 'variable-substitution')
                             return
+            # fixup values of a nested func_instance that are entity names follow the fixup style too; '@'/'!' names and numbers stay
+            if cls == 'func_instance':
+                for var, val0 in snap['fixup'].items():
+                    got = new.fixup[var]
+                    if val0 and (val0[0] in '@!' or val0.replace('.', '', 1).lstrip('-').isdigit()):
+                        want = val0
+                    elif val0 and val0[0].isalpha() and '$' not in val0:
+                        want = fixup_name_model(style, inst_name, val0)
+                    else:
+                        continue
+                    self.run.count('nested_fixup_values_checked')
+                    if got != want:
+                        self.fail(f'{label}: fixup ${var} of the nested instance is {got!r}, expected {want!r} (template {val0!r}, style {style})', 'nested-fixup-name')
+                        return
             for (o_out, o_tgt, o_in, o_par), new_o in zip(snap['outputs'], new.outputs):
                 want = fixup_name_model(style, inst_name, substitute_model(o_tgt, table))
                 if new_o.target != want:
@@ -564,7 +579,7 @@ def main(run, shard=(0, 1)) -> None:
             bounded_progress(run, sub_rng(run.seed, 'bounded', i), i)
     probe.report(run)
     probe.check_reached(run)
-    run.require('collapses', 'collapses_keeping_visgroups', 'collapsed_copies_mutated', 'typed_positions_checked', 'typed_directions_checked', 'typed_axes_checked', 'typed_sidelists_checked', 'typed_nodeids_checked', 'typed_name_or_class_checked', 'typed_pitch_checked', 'plane_points_checked', 'texture_projections_checked', 'origins_checked', 'orientations_checked',
+    run.require('collapses', 'nested_fixup_values_checked', 'collapses_keeping_visgroups', 'collapsed_copies_mutated', 'typed_positions_checked', 'typed_directions_checked', 'typed_axes_checked', 'typed_sidelists_checked', 'typed_nodeids_checked', 'typed_name_or_class_checked', 'typed_pitch_checked', 'plane_points_checked', 'texture_projections_checked', 'origins_checked', 'orientations_checked',
                 'names_checked', 'substitutions_checked', 'template_snapshots_compared', 'collapse_all_runs', 'displacements_checked')
 
 
